@@ -272,7 +272,7 @@ def gen(rng, tier, props=("C04",)):
         body = ["using M = %s;" % src.inst.cpp_type(),
                 "tk.next(); std::printf(\"S %ld \", caseno); std::fflush(stdout);",
                 "const M m = drv::read_mapping<M, %d>(tk);" % src.inst.lay,
-                "drv::SubCtx<M, %d> ctx(m); const int* base = ctx.buf.data(); drv::Out o; tk.next();" % rng.choice([0, 0, 1]),
+                "drv::SubCtx<M, %d> ctx(m); const int* base = ctx.buf.data(); drv::Out o; tk.next();" % (rng.choice([0, 0, 1, 2]) if not (boundary or big) else rng.choice([0, 0, 1])),   # the interleaved accessor only over real storage
                 "o.field(\"sp0\", drv::str_i128(drv::to_i128(m.required_span_size())));",
                 "auto v0 = ctx.md;"]
         for l, sls in enumerate(levels, 1):
